@@ -48,6 +48,12 @@ def _fb_and_penalty(S):
     m = tm.min_(c * k, l)
     S.add(q + '/small_residual_bounds_complementarity_gap', [k > 0, tau > 0, tm.abs_(phi) < tau], (2 - tm.sqrt(tm.const(2))) * tm.abs_(m) < tau)
     S.canary(q, [k > 0, tau > 0, tm.abs_(phi) < tau])
+    # the multiplier derivative used by the second-order update's preconditioner
+    S.function('ConstrainedObjective.fischer_burmeister_jac_l', CO.fischer_burmeister_jac_l, 'J')
+    jl = J.scalar(J.symbolic_call(CO.fischer_burmeister_jac_l, c, l, k))
+    dphi = J.scalar(J.symbolic_call(jax.grad(CO.fischer_burmeister, 1), c, l, k))
+    S.add('ConstrainedObjective.fischer_burmeister_jac_l/is_derivative_of_fischer_burmeister_in_the_multiplier', [k > 0, (c * k) * (c * k) + l * l > 0], tm.eq(jl, dphi))
+    S.add('ConstrainedObjective.fischer_burmeister_jac_l/is_between_minus_two_and_zero', [k > 0, (c * k) * (c * k) + l * l > 0], tm.and_(jl <= 0, jl >= -2))
     for cls in (CO.ConstrainedObjective, CO.ConstrainedQuasiObjective):
         quasi = cls is CO.ConstrainedQuasiObjective
         qq = 'ConstrainedObjective.%s.create_augmented_lagrangian' % cls.__name__
